@@ -32,7 +32,9 @@ from concurrent.futures import ProcessPoolExecutor, as_completed
 from concurrent.futures.process import BrokenProcessPool
 
 VERIF = os.path.dirname(os.path.dirname(os.path.abspath(__file__)))
-EVID = os.path.join(VERIF, "evidence")
+# runs against a scratch copy (--repo) must not overwrite the evidence of the
+# real tree: tools/confirm_seed.py points this somewhere else
+EVID = os.environ.get("VERIF_EVIDENCE_DIR") or os.path.join(VERIF, "evidence")
 REPLAYS = os.path.join(EVID, "replays")
 KNOWN = os.path.join(VERIF, "known_findings.json")
 
